@@ -80,6 +80,22 @@ def main():
                     r["orig_after"] = fields(p)
                     r["newname"] = hashlib.sha1(dig("renamed_by_check").encode()).hexdigest()[:12]
                     r["same_object"] = 1 if q is p else 0
+                    # the changed copy and, once more, the original go back to native: a result remembered from the first to_native()
+                    # must not come back for the copy, and the original must still convert to what it was
+                    r["rback_ok"], r["rback"], r["back2_ok"], r["back2"] = 0, {}, 0, {}
+                    if r["back_ok"]:
+                        try:
+                            with xd.quiet():
+                                r["rback"] = fields(q.to_native())
+                            r["rback_ok"] = 1
+                        except Exception as e:
+                            r["rback_err"] = "%s: %s" % (type(e).__name__, str(e)[:120])
+                        try:
+                            with xd.quiet():
+                                r["back2"] = fields(p.to_native())
+                            r["back2_ok"] = 1
+                        except Exception as e:
+                            r["back2_err"] = "%s: %s" % (type(e).__name__, str(e)[:120])
                 except Exception as e:
                     r = {"id": r["id"], "host": H, "error": "%s: %s" % (type(e).__name__, str(e)[:200])}
                 fh.write(json.dumps(r) + "\n")
